@@ -308,6 +308,9 @@ fn cmd_gen(args: &[String]) {
             let stubs = std::env::var("VERIF_STUB_DIR").expect("VERIF_STUB_DIR");
             if plan == "absent" {
                 std::env::set_var("PATH", std::env::var("VERIF_EMPTY_DIR").expect("VERIF_EMPTY_DIR"));
+            } else if plan == "noexec" || plan == "isdir" {
+                // a `rustfmt` that exists but cannot be started: a file without the execute bit / a directory of that name
+                std::env::set_var("PATH", format!("{}/{plan}", std::env::var("VERIF_EMPTY_DIR").expect("VERIF_EMPTY_DIR")));
             } else {
                 std::env::set_var("PATH", format!("{stubs}:{orig_path}"));
                 std::env::set_var("VERIF_FMT_PLAN", plan);
